@@ -71,6 +71,19 @@ def takeG {α : Type} (l : List α) (n : Int) : List α := l.take n.toNat
 def dropG {α : Type} (l : List α) (n : Int) : List α := l.drop n.toNat
 def mkSliceG {α : Type} [Inhabited α] (n : Int) : List α := List.replicate n.toNat default
 
+/-- maps with integer keys: association lists (a key occurs at most once; `mapSet` keeps that). A nil map and an
+empty map are identified; iteration order is never observed (the translator only accepts the order-independent
+`for k := range m { if c { delete(m, k) } }`). -/
+def mapLen {α : Type} (m : List (Int × α)) : Int := m.length
+def mapHas {α : Type} (m : List (Int × α)) (k : Int) : Bool := m.any (fun e => e.1 == k)
+def mapGet {α : Type} [Inhabited α] (m : List (Int × α)) (k : Int) : α :=
+  match m.find? (fun e => e.1 == k) with
+  | some e => e.2
+  | none => default
+def mapDel {α : Type} (m : List (Int × α)) (k : Int) : List (Int × α) := m.filter (fun e => e.1 != k)
+def mapSet {α : Type} (m : List (Int × α)) (k : Int) (v : α) : List (Int × α) := (k, v) :: mapDel m k
+def mapFilter {α : Type} (keep : Int → Bool) (m : List (Int × α)) : List (Int × α) := m.filter (fun e => keep e.1)
+
 /-- the zero `time.Time` (January 1, year 1 UTC) in nanoseconds relative to the Unix epoch; it does not fit an
 int64, which is why `t.Sub(zero)` saturates for every real instant. -/
 def zeroTime : Int := -62135596800000000000
